@@ -117,7 +117,7 @@ package escape
 //@ immutable escapeCallsiteInfoImpl.callsite escapeCallsiteInfoImpl.nodes escapeCallsiteInfoImpl.prog escapeCallsiteInfoImpl.g
 
 //@ func escapeCallsiteInfoImpl.Resolve
-//@   property C14
+//@   property C14 C13
 //@   requires c != nil && c.callsite != nil && callee != nil && c.prog != nil && c.nodes != nil && c.g != nil
 //@   ensures invoke_receiver: c.callsite.Call.IsInvoke() ==> called(mapNode, vnode(c.nodes, c.callsite.Call.Value), vnode(old(c.prog.summaries[callee].nodes), callee.Params[0]))
 //@   ensures invoke_args: forall i int :: c.callsite.Call.IsInvoke() && 0 <= i && i < len(c.callsite.Call.Args) && lang.IsNillableType(c.callsite.Call.Args[i].Type()) ==> called(mapNode, vnode(c.nodes, c.callsite.Call.Args[i]), vnode(old(c.prog.summaries[callee].nodes), callee.Params[i + 1]))
